@@ -179,3 +179,13 @@ M('c09-range-no-dash-accepted', 'C09', 'R6', 'falcon/request.py',
 """)
 M('c09-range-suffix-positive', 'C09', 'R6', 'falcon/request.py',
   "first_num, last_num = (-int(last), -1)", "first_num, last_num = (int(last), -1)")
+
+M('c09-forwarded-lowercased-whole', 'C09', 'R7', 'falcon/forwarded.py',
+  """    pos = 0
+    end = len(forwarded)
+""", """    forwarded = forwarded.lower()
+    pos = 0
+    end = len(forwarded)
+""")
+M('c09-forwarded-src-lowercased', 'C09', 'R7', 'falcon/forwarded.py',
+  "                    parsed_element.src = value\n", "                    parsed_element.src = value.lower()\n")
